@@ -17,13 +17,38 @@ import (
 // faults. Only the safety half is judged here (the handler ran => the session
 // named a loadable user and every requirement held); the table covers the rest.
 
-type monC08w struct{}
+type monC08w struct {
+	lvl         monC13   // reference model of what each browser's session has proved (full login completed / remember cookie only)
+	viaRemember []string // per browser: the user a remember cookie put into the session, until a login as that user completes
+}
 
-func (c *monC08w) Init(m *Machine) {}
+func (c *monC08w) Init(m *Machine) { c.viaRemember = make([]string, len(m.W.Jars)) }
+
+// track follows the session's provenance independently of the half-auth mark the library keeps.
+func (c *monC08w) track(m *Machine, s *Step) {
+	c.lvl.trackLevel(m, s)
+	b := s.Op.B % len(m.W.Jars)
+	if s.Op.K == "newsess" || s.Resp == nil {
+		if s.Op.K == "newsess" {
+			c.viaRemember[b] = ""
+		}
+		return
+	}
+	uid := s.Resp.UID()
+	switch {
+	case uid == "":
+		c.viaRemember[b] = ""
+	case s.Resp.UIDBefore() == "" && m.rotationOwner(s) == uid:
+		c.viaRemember[b] = uid
+	case c.viaRemember[b] != uid || c.lvl.level[b] == "full":
+		c.viaRemember[b] = ""
+	}
+}
 
 var c08wProbes = map[string]bool{"none": true, "full": true, "2fa": true, "full2fa": true, "any": true}
 
 func (c *monC08w) After(m *Machine, s *Step) *Violation {
+	defer c.track(m, s)
 	if s.Resp == nil {
 		return nil
 	}
@@ -61,6 +86,10 @@ func (c *monC08w) After(m *Machine, s *Step) *Violation {
 	if strings.Contains(name, "full") && half {
 		return violation("C08", "handler-ran-half-authed:"+name, "the handler behind %s ran for %q whose session is only half-authenticated", name, uid)
 	}
+	if b := s.Op.B % len(m.W.Jars); strings.Contains(name, "full") && r.SessBefore[authboss.SessionKey] == uid && c.viaRemember[b] == uid && len(c.lvl.level) > b && c.lvl.level[b] == "half" {
+		// the mark is gone although nothing completed a login: "full rather than half authentication" is about what was proved
+		return violation("C08", "handler-ran-for-remembered-session:"+name, "the handler behind %s ran for %q whose session goes back to a remember cookie; no login as that user completed since (session %v)", name, uid, r.SessBefore)
+	}
 	if strings.Contains(name, "2fa") && !two {
 		return violation("C08", "handler-ran-without-2fa:"+name, "the handler behind %s ran for %q whose session carries no 2FA mark", name, uid)
 	}
@@ -73,7 +102,8 @@ func (c *monC08w) End(m *Machine) *Violation { return nil }
 var kindsC08w = append(append([]wk{}, worldKinds...), wk{"visit", 30}, wk{"snip:remember", 8}, wk{"snip:2fa", 4}, wk{"snip:idle", 3})
 
 var profC08w = profile{
-	must: []string{"auth"}, may: []string{"confirm", "lock", "logout", "oauth2", "otp", "recover", "register", "remember"},
+	arbVariants: true,
+	must:        []string{"auth"}, may: []string{"confirm", "lock", "logout", "oauth2", "otp", "recover", "register", "remember"},
 	setups: []string{"totp", "sms", "recovery", "expire"}, kinds: kindsC08w, minOps: 14, maxOps: 34,
 	accts: [2]int{2, 3}, browsers: [2]int{1, 3}, middlewares: []string{"", "remember", "remember", "expire"},
 	faultPct: 12, faultKinds: []string{"generic", "generic", "notfound"},
